@@ -151,6 +151,24 @@ pub fn evalpair(f: &[&str]) -> Result<String, String> {
     ))
 }
 
+/// the evaluation of a position reached by playing moves (accumulators carried move by move) next to the
+/// evaluation of the same position set up from scratch
+pub fn evalplay(f: &[&str]) -> Result<String, String> {
+    let mut g = read_position(f[1])?;
+    for mv in f.get(2).unwrap_or(&"").split(' ').filter(|s| !s.is_empty()) {
+        g.make_move(parse_move(mv).ok_or("bad move")?);
+    }
+    let fresh = crate::chess::game::Game::from_state(
+        g.board.clone(),
+        g.player,
+        g.castle_rights.clone(),
+        g.en_passant_target,
+        g.halfmove_clock,
+        g.plies,
+    );
+    Ok(format!("ev={} evf={}", eval::eval(&g).0, eval::eval(&fresh).0))
+}
+
 pub fn blend(f: &[&str]) -> Result<String, String> {
     let mg: i16 = f[1].parse().map_err(|_| "mg")?;
     let eg: i16 = f[2].parse().map_err(|_| "eg")?;
